@@ -19,13 +19,13 @@ theorem encodeWire_length (ls : List Bytes) : (encodeWire ls).length = wire ls +
 
 /-- the uncompressed encoding of valid labels denotes those labels, wherever it stands in a message -/
 theorem denotes_encodeWire (ls : List Bytes) (hv : ValidLabels ls) : ∀ (pre post : Bytes),
-    Denotes (pre ++ encodeWire ls ++ post) pre.length ls (pre.length + wire ls + 1) := by
+    DenotesH (pre ++ encodeWire ls ++ post) pre.length ls (pre.length + wire ls + 1) 0 := by
   induction ls with
   | nil =>
     intro pre post
     have : (pre ++ encodeWire [] ++ post)[pre.length]? = some 0 := by
       simp [encodeWire]
-    simpa [wire] using Denotes.root this
+    simpa [wire] using DenotesH.root this
   | cons l ls ih =>
     intro pre post
     have hl := hv l (by simp)
@@ -53,7 +53,7 @@ theorem denotes_encodeWire (ls : List Bytes) (hv : ValidLabels ls) : ∀ (pre po
     rw [hlen] at hrest
     have hbound : pre.length + 1 + (b8 l.length).toNat ≤ (pre ++ encodeWire (l :: ls) ++ post).length := by
       rw [hm2, hb]; simp; omega
-    have := Denotes.label h0 (by omega) (by omega) hbound hrest
+    have := DenotesH.label h0 (by omega) (by omega) hbound hrest
     rw [hsl] at this
     have e : pre.length + ((b8 l.length).toNat + 1) + wire ls + 1 = pre.length + wire (l :: ls) + 1 := by
       simp only [wire, hb]; omega
@@ -91,7 +91,7 @@ theorem labelsOf_nonempty (name : Bytes) : ∀ l ∈ labelsOf name, 1 ≤ l.leng
 
 /-- what `encodeName` writes: the uncompressed RFC 1035 encoding of the non-empty dot-separated pieces, at most 253 octets -/
 theorem encodeName_ok {name w : Bytes} (h : encodeName name = .ok w) :
-    w = encodeWire (labelsOf name) ∧ ValidLabels (labelsOf name) ∧ wire (labelsOf name) + 1 ≤ 253 := by
+    w = encodeWire (labelsOf name) ∧ ValidLabels (labelsOf name) ∧ wire (labelsOf name) + 1 ≤ 255 := by
   unfold encodeName at h
   split at h
   · rename_i hsp
@@ -124,7 +124,7 @@ theorem decode_encodeName (name w : Bytes) (h : encodeName name = .ok w) (pre po
   subst e
   have hd := denotes_encodeWire (labelsOf name) hv pre post
   rw [encodeWire_length]
-  have := decodeName_sound _ _ _ _ hd (by omega)
+  have := decodeName_sound _ _ _ _ ⟨0, hd, Nat.zero_le _, hw⟩
   rw [this, Nat.add_assoc]
 
 theorem rd_mid (pre : Bytes) (x : UInt8) (post : Bytes) : rd (pre ++ x :: post) pre.length = .ok x := by
@@ -219,12 +219,14 @@ theorem parseQuestions_encoded : ∀ (qs : List Question) (body : Bytes), encode
 
 /-- **N1q (query round trip).** Every query built by `buildQuery` (non-zero id) parses back to the same header fields and the
 same questions, names normalised by dropping empty labels. -/
-theorem parse_buildQuery (qs : List Question) (rd : Bool) (id : Nat) (w : Bytes) (h : buildQuery qs rd id = .ok w)
-    (hid : id < 65536) (hn : qs.length < 65536) (hq : ∀ q ∈ qs, q.qtype < 65536 ∧ q.qclass < 65536) :
-    parse w = .ok { header := { id := id, qr := false, opcode := 0, aa := false, tc := false, rd := rd, ra := false, z := 0,
-                                rcode := 0, qd := qs.length, an := 0, ns := 0, ar := 0 },
+theorem parse_buildQuery (qs : List Question) (rd : Bool) (id0 gen : Nat) (w : Bytes) (h : buildQuery qs rd id0 gen = .ok w)
+    (hid : (if id0 = 0 then gen else id0) < 65536) (hn : qs.length < 65536) (hq : ∀ q ∈ qs, q.qtype < 65536 ∧ q.qclass < 65536) :
+    parse w = .ok { header := { id := if id0 = 0 then gen else id0, qr := false, opcode := 0, aa := false, tc := false, rd := rd,
+                                ra := false, z := 0, rcode := 0, qd := qs.length, an := 0, ns := 0, ar := 0 },
                     questions := qs.map normQ } := by
   unfold buildQuery at h
+  dsimp only at h
+  generalize (if id0 = 0 then gen else id0) = id at h hid ⊢
   split at h
   · cases h
   · rename_i body hb
